@@ -134,6 +134,57 @@ static void dump_vmci(kdump_ctx_t *ctx, const char *os)
 	putchar('}');
 }
 
+/* read a numeric attribute through a fresh reference (no by-key read) */
+static kdump_status get_by_ref(kdump_ctx_t *ctx, const char *key, kdump_num_t *n)
+{
+	kdump_attr_ref_t ref;
+	kdump_attr_t a;
+	kdump_status st = kdump_attr_ref(ctx, key, &ref);
+	if (st != KDUMP_OK) return st;
+	st = kdump_attr_ref_get(ctx, &ref, &a);
+	kdump_attr_unref(ctx, &ref);
+	if (st == KDUMP_OK) *n = a.val.number;
+	return st;
+}
+
+/* ... through the iterator position of its directory; an attribute without a value is
+ * not yielded: KDUMP_ERR_NODATA, as a by-key read would say */
+static kdump_status get_by_iter(kdump_ctx_t *ctx, const char *key, kdump_num_t *n)
+{
+	char dir[96];
+	const char *leaf = strrchr(key, '.');
+	kdump_attr_iter_t it;
+	kdump_attr_t a;
+	kdump_status st;
+	snprintf(dir, sizeof dir, "%.*s", (int) (leaf - key), key);
+	st = kdump_attr_iter_start(ctx, dir, &it);
+	if (st != KDUMP_OK) return st;
+	st = KDUMP_ERR_NODATA;
+	while (it.key) {
+		if (!strcmp(it.key, leaf + 1)) {
+			st = kdump_attr_ref_get(ctx, &it.pos, &a);
+			if (st == KDUMP_OK) *n = a.val.number;
+			break;
+		}
+		if (kdump_attr_iter_next(ctx, &it) != KDUMP_OK) break;
+	}
+	kdump_attr_iter_end(ctx, &it);
+	return st;
+}
+
+static kdump_status set_by_ref(kdump_ctx_t *ctx, const char *key, kdump_num_t v)
+{
+	kdump_attr_ref_t ref;
+	kdump_attr_t a;
+	kdump_status st = kdump_attr_ref(ctx, key, &ref);
+	if (st != KDUMP_OK) return st;
+	a.type = KDUMP_NUMBER;
+	a.val.number = v;
+	st = kdump_attr_ref_set(ctx, &ref, &a);
+	kdump_attr_unref(ctx, &ref);
+	return st;
+}
+
 static const char *osname(const char *s) { return *s == 'l' ? "linux" : "xen"; }
 
 static void set_ostype(kdump_ctx_t *ctx, const char *os)
@@ -164,9 +215,11 @@ static void run_ctx(char **ops, int nops)
 			printf("%d", (int) st);
 		} else if (!strcmp(op, "CREL")) {
 			printf("%d", (int) clear_key(ctx, "linux.uts.release"));
-		} else if (!strcmp(op, "VC")) {
+		} else if (!strcmp(op, "VC") || !strcmp(op, "VCR") || !strcmp(op, "VCI")) {
 			kdump_num_t n = 0;
-			st = kdump_get_number_attr(ctx, "linux.version_code", &n);
+			st = op[2] == 'R' ? get_by_ref(ctx, "linux.version_code", &n)
+				: op[2] == 'I' ? get_by_iter(ctx, "linux.version_code", &n)
+				: kdump_get_number_attr(ctx, "linux.version_code", &n);
 			printf("%d:%llx", (int) st, st == KDUMP_OK ? (unsigned long long) n : 0ULL);
 		} else if (!strcmp(op, "RAW")) {
 			size_t n; unsigned char *s = unhex(a2, &n);
@@ -314,7 +367,8 @@ static void run_reg(char **w, int nw)
 		kdump_attr_t a;
 		if (i > 5) putchar(' ');
 		if (a1) { *a1++ = 0; a2 = strchr(a1, ':'); if (a2) *a2++ = 0; }
-		if (!strcmp(op, "G") || !strcmp(op, "S") || !strcmp(op, "C")) {
+		if (!strcmp(op, "G") || !strcmp(op, "S") || !strcmp(op, "C") || !strcmp(op, "GR") ||
+		    !strcmp(op, "GI") || !strcmp(op, "SR")) {
 			int r = atoi(a1);
 			if (r < 0 || r >= ndefs) { printf("BADREG"); continue; }
 			snprintf(key, sizeof key, "cpu.0.%s", names[r]);
@@ -323,6 +377,13 @@ static void run_reg(char **w, int nw)
 			kdump_num_t n = 0;
 			st = kdump_get_number_attr(ctx, key, &n);
 			printf("%d:%llx", (int) st, st == KDUMP_OK ? (unsigned long long) n : 0ULL);
+		} else if (!strcmp(op, "GR") || !strcmp(op, "GI")) {
+			/* the same read through a reference / an iterator position */
+			kdump_num_t n = 0;
+			st = op[1] == 'R' ? get_by_ref(ctx, key, &n) : get_by_iter(ctx, key, &n);
+			printf("%d:%llx", (int) st, st == KDUMP_OK ? (unsigned long long) n : 0ULL);
+		} else if (!strcmp(op, "SR")) {
+			printf("%d", (int) set_by_ref(ctx, key, hx(a2)));
 		} else if (!strcmp(op, "S")) {
 			printf("%d", (int) kdump_set_number_attr(ctx, key, hx(a2)));
 		} else if (!strcmp(op, "C")) {
